@@ -11,7 +11,7 @@ def run(ctx):
         scale = driver.run_scaled(ctx, b, "TestVerifC09", 16, 3000, "c09")
     return driver.finish(
         ctx, "exploration",
-        "CONCURRENT USERS: per upstream codec 8 goroutines push 4000 (thorough 40000) numbered packet requests each through the whole path at the same time (the server handles every datagram on a goroutine of its own) and must each get back exactly what they sent (judged only if the same requests round-trip one at a time). SEQUENTIAL: "
+        "CONCURRENT USERS: per upstream codec 8 goroutines push 4000 (thorough 40000) numbered packet requests each through the whole path at the same time (the server handles every datagram on a goroutine of its own) and must each get back exactly what they sent (judged only if the same requests round-trip one at a time). CLIENT-BUILT: for every tunnel-domain length 4..200 the real client, connected to the real server in memory, sends what it builds by itself (version handshake, fragment-size probes with its own padding, the switch to each upstream codec, a write of exactly the upstream budget it computed for that codec): every request must be answered / delivered byte-exactly and every call must return. SEQUENTIAL: "
         "for each request type the client forms (version, options, packet with data, packet without data, upstream-codec probe "
         "with the patterns the client sends, downstream-codec probe, fragment-size probe) x upstream codec {Base32,64,64u,85,91,128} x "
         "tunnel domain (7 lengths 4..120 quick, 43 thorough; the 3 payload lengths just below and at the fragment size for EVERY domain length 4..120) x query type (CNAME,TXT,NULL,A,MX,SRV,AAAA,PRIVATE) x EDNS0 on/off: "
